@@ -772,6 +772,10 @@ class Interp:
                 return self.static_ref(a['static'])
             if a and a.get('bytes') is not None and re.match(r'^&(\[u8(; \d+)?\]|str)$', m.group(2).strip()):
                 return self.str_const(a['bytes'], 'bytes')
+        if re.match(r'^<.* as (?:std::mem::)?SizedTypeProperties>::SIZE$', c):
+            return BV(64, 1)        # only used by debug-mode null-dereference assertions (`SIZE != 0`)
+        if re.match(r'^<.* as (?:std::mem::)?SizedTypeProperties>::ALIGN$', c):
+            return BV(64, 1)        # only used by debug-mode alignment assertions; every model pointer is aligned
         if c.startswith('{alloc') or c.startswith('<') or 'ALIGN' in c or 'SIZE' in c:
             return Opaque(want_ty or '', 'const:' + c)
         # fn item / ZST
@@ -986,6 +990,8 @@ class Interp:
                 raise Inconclusive("transmute %s -> %s at %s" % (src_ty, dst_ty, site))
             if 'ClosureFnPointer' in kind or 'ReifyFnPointer' in kind:
                 return v
+            if kind == 'Transmute' and isinstance(v, Ptr) and int_type(dst_ty):
+                return BV(int_type(dst_ty)[0], 0x1000)      # opaque, non-null, aligned address
             return v
         raise Inconclusive("cast kind %s (%s -> %s) at %s" % (kind, src_ty, dst_ty, site))
 
